@@ -123,7 +123,7 @@ type evidence struct {
 // RunCheck runs the check of one property; returns the process exit code.
 func RunCheck(o CheckOpts) int {
 	t0 := time.Now()
-	timeout := 10
+	timeout := 15
 	if o.Tier == "thorough" {
 		timeout = 60
 	}
@@ -197,6 +197,7 @@ func RunCheck(o CheckOpts) int {
 		replayDir = filepath.Join(tmp, "replay")
 	}
 	os.RemoveAll(outDir)
+	NoRetry = func(n string) bool { return known.match(o.Prop, oblClass(n)) != nil }
 	srs := SolveAll(g, header, results, outDir, o.Par, timeout, o.Tier == "thorough")
 	for _, r := range results {
 		// assumptions registered while the per-function headers were assembled (instance axioms about literals)
